@@ -335,8 +335,8 @@ func (vfs *MemFS) Link(oldname, newname string) error {
 		return &os.LinkError{Op: op, Old: oldname, New: newname, Err: nerr}
 	}
 
-	if !pi.IsLast() {
-		// The parent directory of newname does not exist.
+	if nParent == nil || !pi.IsLast() {
+		// The volume or the parent directory of newname does not exist.
 		return &os.LinkError{Op: op, Old: oldname, New: newname, Err: nerr}
 	}
 
@@ -436,7 +436,7 @@ func (vfs *MemFS) Mkdir(name string, perm fs.FileMode) error {
 	}
 
 	parent, _, pi, err := vfs.searchNode(name, slmEval)
-	if !vfs.isNotExist(err) || !pi.IsLast() {
+	if !vfs.isNotExist(err) || parent == nil || !pi.IsLast() {
 		return &fs.PathError{Op: op, Path: name, Err: err}
 	}
 
@@ -540,7 +540,7 @@ func (vfs *MemFS) OpenFile(name string, flag int, perm fs.FileMode) (avfs.File, 
 	om := avfs.ToOpenMode(flag)
 
 	parent, child, pi, err := vfs.searchNode(name, slmEval)
-	if err != vfs.err.FileExists && !vfs.isNotExist(err) || !pi.IsLast() {
+	if err != vfs.err.FileExists && !vfs.isNotExist(err) || parent == nil || !pi.IsLast() {
 		return (*MemFile)(nil), &fs.PathError{Op: op, Path: name, Err: err}
 	}
 
@@ -804,7 +804,7 @@ func (vfs *MemFS) Rename(oldpath, newpath string) error {
 	}
 
 	nParent, nChild, nPI, nErr := vfs.searchNode(newpath, slmLstat)
-	if nErr != vfs.err.FileExists && !vfs.isNotExist(nErr) || vfs.isNotExist(nErr) && !nPI.IsLast() {
+	if nErr != vfs.err.FileExists && !vfs.isNotExist(nErr) || vfs.isNotExist(nErr) && (nParent == nil || !nPI.IsLast()) {
 		return &os.LinkError{Op: op, Old: oldpath, New: newpath, Err: nErr}
 	}
 
@@ -952,7 +952,7 @@ func (vfs *MemFS) Symlink(oldname, newname string) error {
 	const op = "symlink"
 
 	parent, _, pi, nerr := vfs.searchNode(newname, slmLstat)
-	if !vfs.isNotExist(nerr) || !pi.IsLast() {
+	if !vfs.isNotExist(nerr) || parent == nil || !pi.IsLast() {
 		return &os.LinkError{Op: op, Old: oldname, New: newname, Err: nerr}
 	}
 
